@@ -974,15 +974,7 @@ func (c *compiler) evalCallExpression(node *ast.CallExpression) (interface{}, er
 			return nil, fmt.Errorf("could not call %s function: %w", node.Function, e)
 		}
 		if node.ChainCallee != nil {
-			octx := c.ctx.(*Context)
-			defer func() {
-				c.ctx = octx
-			}()
-
-			c.ctx = octx.New()
-			for k, v := range octx.data {
-				c.ctx.Set(k, v)
-			}
+			defer c.pushScope()()
 			// the rest of the path refers to the call's result by the name the
 			// parser put at the root of its receiver chain
 			key := node.Function.String()
@@ -1000,6 +992,22 @@ func (c *compiler) evalCallExpression(node *ast.CallExpression) (interface{}, er
 	}
 
 	return nil, nil
+}
+
+// pushScope makes a child of the current context the current one and returns
+// the function that restores it. The context need not be a *Context (a helper
+// may render a template with the HelperContext it was given).
+func (c *compiler) pushScope() (restore func()) {
+	octx := c.ctx
+	c.ctx = octx.New()
+	if oc, ok := octx.(*Context); ok {
+		// must copy all data from original (it includes application defined helpers)
+		for k, v := range oc.data {
+			c.ctx.Set(k, v)
+		}
+	}
+
+	return func() { c.ctx = octx }
 }
 
 // safeCall calls fn and reports a panic of the call (a method promoted from a
@@ -1020,16 +1028,7 @@ func safeCall(fn reflect.Value, args []reflect.Value) (res []reflect.Value, err 
 }
 
 func (c *compiler) evalForExpression(node *ast.ForExpression) (interface{}, error) {
-	octx := c.ctx.(*Context)
-	defer func() {
-		c.ctx = octx
-	}()
-
-	c.ctx = octx.New()
-	// must copy all data from original (it includes application defined helpers)
-	for k, v := range octx.data {
-		c.ctx.Set(k, v)
-	}
+	defer c.pushScope()()
 
 	iter, err := c.evalExpression(node.Iterable)
 	if err != nil {
@@ -1247,16 +1246,7 @@ func (c *compiler) evalArrayLiteral(node *ast.ArrayLiteral) (interface{}, error)
 }
 
 func (c *compiler) evalIndexCallee(rv reflect.Value, node *ast.IndexExpression) (interface{}, error) {
-	octx := c.ctx.(*Context)
-	defer func() {
-		c.ctx = octx
-	}()
-
-	c.ctx = octx.New()
-	// must copy all data from original (it includes application defined helpers)
-	for k, v := range octx.data {
-		c.ctx.Set(k, v)
-	}
+	defer c.pushScope()()
 
 	//The key here is needed to set the object in ctx for later evaluation
 	//For example, if this is a nested object person.Name[0]
